@@ -1402,6 +1402,10 @@ class Interp:
 
     def attr(self, base: Any, name: str) -> Any:
         base = as_view(base)
+        if name in ("T", "mT") and isinstance(base, View) and not base.root.startswith("G:"):
+            # a view with its axes exchanged: the index / extent bookkeeping of this interpreter is per axis position; treating it as an
+            # unrelated array would make every obligation on it 'unproved' (an alarm on code that may well be right)
+            raise AnalysisError(f"transposed view `{base.root}.{name}` is not modelled (axes exchanged)")
         if isinstance(base, View) and not base.idx:
             return View(f"{base.root}.{name}", ())
         if isinstance(base, ModVal):
